@@ -5,6 +5,19 @@ COMMON_NOTE = ("Trusted base: Lean 4.33 kernel; axioms ⊆ {propext, Classical.c
                "generated tables (harness/gen_tables.py). ")
 
 CLAIMED = {
+    "C18": {
+        "text": "Theorems (Lean, unbounded: any number of creators/openers, every interleaving): identity_preserved — from ANY initial storage on "
+                "which a table is resolvable (healthy, pointer lost, first version without pointer, dangling/stale pointer with files) nothing is "
+                "initialised, no file written, the pointer untouched and every caller ends on that table, whatever the lock and backend; one_init "
+                "— from nothing with an excluding lock at most one initialisation and one initial version, all finished callers on it; "
+                "one_init_cas — with create-if-absent and NO lock assumption at most one initialisation takes effect and the pointer is never "
+                "replaced; witnesses for the two windows that need the lock. Tie: real create_table / load_table / first-append callers run as "
+                "threads under the scheduler on local and in-memory CAS S3 from four initial states; every trace accepted by create.trace; "
+                "oracle on identity, rows and persisted schema; schema-persistence semantics checked directly.",
+        "design_ref": "§6 C18",
+        "note": "Recovery's mtime tie-break is modelled as write order; a first appender's commit itself is C01's protocol.",
+        "technique": "Lean 4 invariants over the creation transition system + trace acceptance of scheduled real executions",
+    },
     "C19": {
         "text": "Theorems (Lean, unbounded: any number of contenders, every interleaving incl. deaths and clock jumps). Local lock: flock_mutex — "
                 "at most one FileLock instance believes it holds the lock and that belief is backed by a kernel flock on the inode the path "
